@@ -248,6 +248,25 @@ func handlerIndexOf(v ssa.Value, handlersF *types.Var) (int64, ssa.Value, bool) 
 	return k, fa.X, true
 }
 
+// handlerIndexValue: v is `slot.Handlers[x]` loaded with a non-constant x; returns x.
+func handlerIndexValue(v ssa.Value, handlersF *types.Var) ssa.Value {
+	u, ok := strip(v).(*ssa.UnOp)
+	if !ok || u.Op != token.MUL {
+		return nil
+	}
+	ia, ok := u.X.(*ssa.IndexAddr)
+	if !ok {
+		return nil
+	}
+	if fv, _ := fieldAddrOf(ia.X); fv != handlersF {
+		return nil
+	}
+	if _, isK := constInt(ia.Index); isK {
+		return nil
+	}
+	return stripConv(ia.Index)
+}
+
 // nonNilAt: value v is non-nil whenever control reaches block b (error values: package-level error variables are
 // non-nil; otherwise a dominating `v != nil` literal, examined per phi edge).
 func nonNilAt(v ssa.Value, b *ssa.BasicBlock, depth int) bool {
@@ -646,8 +665,19 @@ func runC01(c *Ctx) {
 					if !ok || !isDynamicFuncCall(call) {
 						return false
 					}
-					k, _, ok := handlerIndexOf(call.Common().Value, handlersF)
-					return ok && k == d
+					if k, _, ok := handlerIndexOf(call.Common().Value, handlersF); ok {
+						return k == d
+					}
+					// the direction is a parameter of a helper shared by both directions (Handlers[et]): the removal must then
+					// have been selected by a test of that same parameter
+					if iv := handlerIndexValue(call.Common().Value, handlersF); iv != nil {
+						for _, l := range guardsOf(in.Block()) {
+							if _, a, b, ok := l.cmp(); ok && (stripConv(a) == iv || stripConv(b) == iv) {
+								return true
+							}
+						}
+					}
+					return false
 				})
 				dn := "read"
 				if d == e.writeEv {
